@@ -89,6 +89,14 @@ type ReopenCase struct {
 	PriorLen int         `json:"prior_len"` // -1: the path does not exist
 	PriorTag uint64      `json:"prior_tag"`
 	Script   work.Script `json:"script"`
+	// Witness w > 0: together with session w-1 a second FileDisk is opened on the same path (same
+	// size) and stays open until the script is over; it is never written through.
+	// Replace[k] (k >= 1), before session k: 1 = the file is removed (the open creates a new one),
+	// 2 = another image of ReplaceLen bytes is renamed over it. "Reopening the same backing file"
+	// means the file at that path (seeded change C11-8: descriptors cached by path name).
+	Witness    int   `json:"witness,omitempty"`
+	Replace    []int `json:"replace,omitempty"`
+	ReplaceLen int   `json:"replace_len,omitempty"`
 }
 
 func priorImage(n int, tag uint64) []byte {
@@ -160,11 +168,43 @@ func runReopen(c ReopenCase) (msg, infra string) {
 		}
 		return fmt.Sprintf("open #%d of an existing image of %d bytes", k, len(img))
 	}
+	var witness *disk.FileDisk
+	defer func() {
+		if witness != nil {
+			catch(func() { witness.Close() })
+		}
+	}()
 	for k, o := range c.Script.Opens {
+		if k > 0 && k < len(c.Replace) && c.Replace[k] != 0 {
+			if c.Replace[k] == 1 {
+				if err := os.Remove(path); err != nil {
+					return "", "remove: " + err.Error()
+				}
+				img, exists = nil, false
+			} else {
+				img = priorImage(c.ReplaceLen, c.PriorTag+uint64(k))
+				tmp := path + ".new"
+				if err := os.WriteFile(tmp, img, 0o644); err != nil {
+					return "", "write replacement: " + err.Error()
+				}
+				if err := os.Rename(tmp, path); err != nil {
+					os.Remove(tmp)
+					return "", "rename: " + err.Error()
+				}
+			}
+		}
 		where := describe(k)
 		d, err := disk.NewFileDisk(path, o.Size)
 		if err != nil {
 			return "", "NewFileDisk failed: " + err.Error()
+		}
+		if c.Witness == k+1 {
+			w, err := disk.NewFileDisk(path, o.Size)
+			if err != nil {
+				catch(func() { d.Close() })
+				return "", "NewFileDisk (second handle) failed: " + err.Error()
+			}
+			witness = &w
 		}
 		model := models.NewRegDiskImage(img, o.Size)
 		closed := false
@@ -184,6 +224,9 @@ func runReopen(c ReopenCase) (msg, infra string) {
 		}
 		fi, err := os.Stat(path)
 		if err != nil {
+			if os.IsNotExist(err) {
+				return fail("%s as %d blocks: NewFileDisk succeeded, yet there is no file at the path", where, o.Size)
+			}
 			closeIt()
 			return "", "stat: " + err.Error()
 		}
@@ -393,12 +436,39 @@ func genReopen(t *rapid.T) reopenGen {
 	size := first
 	for k := 0; k < nOpens; k++ {
 		if k > 0 {
+			if rapid.IntRange(0, 5).Draw(t, "replace") == 0 {
+				for len(g.c.Replace) <= k {
+					g.c.Replace = append(g.c.Replace, 0)
+				}
+				g.c.Replace[k] = rapid.IntRange(1, 2).Draw(t, "replaceHow")
+				if g.c.Replace[k] == 1 {
+					fileLen = 0
+					g.classes = append(g.classes, "file removed between sessions")
+				} else {
+					if g.c.ReplaceLen == 0 {
+						g.c.ReplaceLen = rapid.IntRange(1, 6*bs).Draw(t, "replaceLen")
+					}
+					fileLen = g.c.ReplaceLen
+					g.classes = append(g.classes, "file replaced by rename between sessions")
+				}
+			}
 			var sc string
 			size, sc = genSize(t, fileLen, size)
 			g.classes = append(g.classes, "reopen-size="+sc)
 		}
 		g.c.Script.Opens = append(g.c.Script.Opens, work.Open{Size: size, Steps: genSteps(t, size, 0, 10, false)})
 		fileLen = int(size) * bs
+	}
+	if rapid.IntRange(0, 3).Draw(t, "witness") == 0 {
+		g.c.Witness = rapid.IntRange(1, nOpens).Draw(t, "witnessAt")
+		g.classes = append(g.classes, "second handle on the path kept open")
+		across := false
+		for k, r := range g.c.Replace {
+			across = across || (r != 0 && k >= g.c.Witness)
+		}
+		if across {
+			g.classes = append(g.classes, "second handle kept open across a replacement of the file")
+		}
 	}
 	return g
 }
